@@ -852,3 +852,165 @@ pub fn bfp2_from_repr_total() {
     assert!(some == canonical, "Fp2::from_repr accepted a non-canonical half");
     vcover!(some);
 }
+
+// =============================================================================================
+// Generic extension-field code of curves/src/ff_ext (QuadExtField, sqrt_algo9, CubicExtField) instantiated at TOY
+// base fields F_q (src/toy.rs, hook H8), against the schoolbook definitions, for EVERY element. The code is generic
+// in the base field and only uses its field operations, so genericity is what carries the statement to the
+// 254-bit towers; the toy field is the bound.
+use crate::toy::{ToyBase, C7, Q11, Q19, Q7};
+use midnight_curves::ff_ext::cubic::CubicExtField;
+use midnight_curves::ff_ext::quadratic::QuadExtField;
+use midnight_curves::ff_ext::verif::{VerifCubicBase, VerifQuadBase};
+use midnight_curves::ff_ext::ExtField;
+
+fn any_fe<F: ToyBase>() -> F {
+    let v: u8 = any();
+    assume(v < F::Q);
+    F::fe(v)
+}
+
+/// schoolbook product in F[u]/(u^2 - NON_RESIDUE)
+fn sb2_mul<F: ToyBase>(a: (F, F), b: (F, F)) -> (F, F) {
+    (a.0 * b.0 + F::NON_RESIDUE * (a.1 * b.1), a.0 * b.1 + a.1 * b.0)
+}
+
+/// QuadExtField<F>: add, sub, neg, double, mul, square, conjugate, norm, invert, is_zero, frobenius_map
+/// against the schoolbook definitions, all pairs of elements
+fn quad_arith<F: ToyBase + VerifQuadBase>() {
+    let (a, b): ((F, F), (F, F)) = ((any_fe(), any_fe()), (any_fe(), any_fe()));
+    let (x, y) = (QuadExtField::new(a.0, a.1), QuadExtField::new(b.0, b.1));
+    let mk = |p: (F, F)| QuadExtField::new(p.0, p.1);
+    assert!(x + y == mk((a.0 + b.0, a.1 + b.1)));
+    assert!(x - y == mk((a.0 - b.0, a.1 - b.1)));
+    assert!(-x == mk((-a.0, -a.1)));
+    assert!(Field::double(&x) == mk((a.0 + a.0, a.1 + a.1)));
+    assert!(x * y == mk(sb2_mul(a, b)), "QuadExtField mul differs from the schoolbook product");
+    assert!(Field::square(&x) == mk(sb2_mul(a, a)), "QuadExtField square differs from x*x");
+    let mut c = x;
+    c.conjugate();
+    assert!(c == mk((a.0, -a.1)));
+    assert!(x.norm() == a.0 * a.0 - F::NON_RESIDUE * (a.1 * a.1));
+    let zero = a.0 == F::ZERO && a.1 == F::ZERO;
+    assert!(bool::from(Field::is_zero(&x)) == zero);
+    let inv = Field::invert(&x);
+    assert!(bool::from(inv.is_some()) == !zero);
+    if !zero {
+        assert!(inv.unwrap() * x == QuadExtField::<F>::ONE, "QuadExtField invert: x * x^-1 != 1");
+    }
+    // frobenius_map(1) is x -> x^q (q-th power by repeated schoolbook multiplication), frobenius_map(2) the identity
+    let mut p = (F::ONE, F::ZERO);
+    let mut i = 0;
+    while i < F::Q {
+        p = sb2_mul(p, a);
+        i += 1;
+    }
+    let mut f1 = x;
+    f1.frobenius_map(1);
+    assert!(f1 == mk(p), "frobenius_map(1) is not the q-th power");
+    let mut f2 = x;
+    f2.frobenius_map(2);
+    assert!(f2 == x);
+    vcover!(zero);
+    vcover!(!zero && a.1 != F::ZERO && b.1 != F::ZERO);
+}
+
+/// `Field::sqrt` of QuadExtField<F> (Algorithm 9 of eprint 2012/685): Some exactly for the squares of F_{q^2}
+/// (reference: exhaustive search over all q^2 candidates with the schoolbook product), and then root^2 = e
+fn quad_sqrt<F: ToyBase + VerifQuadBase>() {
+    let e: (F, F) = (any_fe(), any_fe());
+    let x = QuadExtField::new(e.0, e.1);
+    let r = Field::sqrt(&x);
+    let some: bool = r.is_some().into();
+    let root = r.unwrap_or(QuadExtField::<F>::ZERO);
+    let mut exists = false;
+    let mut root_ok = false;
+    let mut i = 0;
+    while i < F::Q {
+        let mut j = 0;
+        while j < F::Q {
+            let y = (F::fe(i), F::fe(j));
+            let is_root = sb2_mul(y, y) == e;
+            exists |= is_root;
+            if QuadExtField::new(y.0, y.1) == root {
+                root_ok = is_root;
+            }
+            j += 1;
+        }
+        i += 1;
+    }
+    assert!(some == exists, "sqrt is Some for a non-square or None for a square");
+    if some {
+        assert!(root_ok, "sqrt returned x with x^2 != e");
+    }
+    vcover!(some && e.1 == F::ZERO && e.0 != F::ZERO, "square root of a base-field element");
+    vcover!(some && e.1 != F::ZERO);
+    vcover!(!some);
+}
+
+macro_rules! quad_harness {
+    ($($arith:ident, $sqrt:ident = $F:ty),*) => {$(
+        #[cfg_attr(kani, kani::proof)]
+        #[cfg_attr(kani, kani::unwind(22))]
+        pub fn $arith() {
+            quad_arith::<$F>()
+        }
+        #[cfg_attr(kani, kani::proof)]
+        #[cfg_attr(kani, kani::unwind(66))]
+        pub fn $sqrt() {
+            quad_sqrt::<$F>()
+        }
+    )*};
+}
+quad_harness!(quad_arith_q7, quad_sqrt_q7 = Q7, quad_arith_q11, quad_sqrt_q11 = Q11, quad_arith_q19, quad_sqrt_q19 = Q19);
+
+/// schoolbook product in F[v]/(v^3 - NON_RESIDUE)
+fn sb3_mul<F: ToyBase>(a: (F, F, F), b: (F, F, F)) -> (F, F, F) {
+    let n = F::NON_RESIDUE;
+    (
+        a.0 * b.0 + n * (a.1 * b.2 + a.2 * b.1),
+        a.0 * b.1 + a.1 * b.0 + n * (a.2 * b.2),
+        a.0 * b.2 + a.1 * b.1 + a.2 * b.0,
+    )
+}
+
+/// CubicExtField<F>: add, sub, neg, double, mul, square, invert against the schoolbook definitions, all pairs
+fn cubic_arith<F: ToyBase + VerifCubicBase>() {
+    let a: (F, F, F) = (any_fe(), any_fe(), any_fe());
+    let b: (F, F, F) = (any_fe(), any_fe(), any_fe());
+    let mk = |p: (F, F, F)| CubicExtField::new(p.0, p.1, p.2);
+    let (x, y) = (mk(a), mk(b));
+    assert!(x + y == mk((a.0 + b.0, a.1 + b.1, a.2 + b.2)));
+    assert!(x - y == mk((a.0 - b.0, a.1 - b.1, a.2 - b.2)));
+    assert!(-x == mk((-a.0, -a.1, -a.2)));
+    assert!(Field::double(&x) == mk((a.0 + a.0, a.1 + a.1, a.2 + a.2)));
+    assert!(x * y == mk(sb3_mul(a, b)), "CubicExtField mul differs from the schoolbook product");
+    assert!(Field::square(&x) == mk(sb3_mul(a, a)), "CubicExtField square differs from x*x");
+    let zero = a.0 == F::ZERO && a.1 == F::ZERO && a.2 == F::ZERO;
+    let inv = Field::invert(&x);
+    assert!(bool::from(inv.is_some()) == !zero);
+    if !zero {
+        assert!(inv.unwrap() * x == CubicExtField::<F>::ONE, "CubicExtField invert: x * x^-1 != 1");
+    }
+    vcover!(zero);
+    vcover!(!zero && a.2 != F::ZERO && b.2 != F::ZERO);
+}
+
+#[cfg_attr(kani, kani::proof)]
+#[cfg_attr(kani, kani::unwind(10))]
+pub fn cubic_arith_c7() {
+    cubic_arith::<C7>()
+}
+
+/// `Field::is_zero` of CubicExtField<F> holds exactly for the zero element. [expected to FAIL on the pinned tree:
+/// the generic impl tests c0 and c1 only]
+#[cfg_attr(kani, kani::proof)]
+#[cfg_attr(kani, kani::unwind(10))]
+pub fn cubic_is_zero_c7() {
+    let a: (C7, C7, C7) = (any_fe(), any_fe(), any_fe());
+    let x = CubicExtField::new(a.0, a.1, a.2);
+    let zero = a.0 == C7::ZERO && a.1 == C7::ZERO && a.2 == C7::ZERO;
+    assert!(bool::from(Field::is_zero(&x)) == zero, "CubicExtField::is_zero is true for a non-zero element");
+    vcover!(zero);
+    vcover!(!zero);
+}
